@@ -83,6 +83,32 @@ def impl_combine(seq, result):
     return obs_of_impl(result.combine([to_impl(o, result) for o in seq]), result)
 
 
+def safe_obs(x, result, unwrapped=False):
+    try:
+        return obs_of_impl(x, result, unwrapped)
+    except Exception as e:  # e.g. an internal wrapper object where a JSON value should be
+        return {"c": "??", "repr": repr(e)}
+
+
+def reuse_problem(kind, seq, perm_idx, result):
+    """Aggregate the SAME outcome objects several times (sequence, a permutation, sequence again):
+    the inputs must not be modified and the answers must not depend on earlier aggregations."""
+    unwrapped = kind == "unwrapped"
+    objs = [o["v"] if (unwrapped and o["c"] == "ok") else to_impl(o, result) for o in seq]
+    fn = result.unwrapped_combine if unwrapped else result.combine
+    before = [safe_obs(x, result, unwrapped) for x in objs]
+    first = safe_obs(fn(list(objs)), result, unwrapped)
+    safe_obs(fn([objs[i] for i in perm_idx]), result, unwrapped)
+    again = safe_obs(fn(list(objs)), result, unwrapped)
+    fresh = impl_unwrapped(seq, result) if unwrapped else impl_combine(seq, result)
+    after = [safe_obs(x, result, unwrapped) for x in objs]
+    if before != after:
+        return "combining modified its input outcomes"
+    if first != again or first != fresh:
+        return "aggregating the same outcomes again gives a different answer"
+    return None
+
+
 def impl_unwrapped(seq, result):
     xs = [o["v"] if o["c"] == "ok" else to_impl(o, result) for o in seq]
     return obs_of_impl(result.unwrapped_combine(xs), result, unwrapped=True)
@@ -178,6 +204,22 @@ def run(tier: str) -> int:
                 return oracle(sub, impl(kind, sub), u) is not None
             small = ddmin(seq, fails) if oracle(seq, got, u) else seq
             ck.violate({"op": kind, "seq": small, "impl": impl(kind, small)}, bad)
+        elif seq:
+            perm_idx = list(range(len(seq)))
+            r.shuffle(perm_idx)
+            try:
+                rb = reuse_problem(kind, seq, perm_idx, result)
+            except Exception as e:
+                rb = f"combine raised {e!r} when the same outcomes were aggregated again"
+            if rb is not None:
+                def fails2(sub, kind=kind):
+                    idx = list(range(len(sub)))[::-1]
+                    try:
+                        return reuse_problem(kind, sub, idx, result) is not None
+                    except Exception:
+                        return True
+                small = ddmin(seq, fails2) if fails2(seq) else seq
+                ck.violate({"op": kind, "seq": small, "reuse": True}, rb)
         # correspondence
         if ans is not None:
             model = dict(ans)
@@ -205,6 +247,11 @@ def replay(path: str) -> int:
         kind, seq = case["op"], case["seq"]
         got = impl_unwrapped(seq, result) if kind == "unwrapped" else impl_combine(seq, result)
         bad = oracle(seq, got, kind == "unwrapped")
+        if case.get("reuse"):
+            try:
+                bad = reuse_problem(kind, seq, list(range(len(seq)))[::-1], result)
+            except Exception as e:
+                bad = repr(e)
         print("replay:", json.dumps(case), "->", got, "::", bad)
         rc = rc or (1 if bad else 0)
     return rc
